@@ -1,5 +1,6 @@
 import GixModel.Model.C27Core
 import GixModel.Spec.C27
+import GixModel.Spec.C27Value
 /-
 C27 — driver. The model proper is `Model/C27Core.lean` (gitoxide's side) and `Spec/C27.lean`
 (git's side); this file only defines the line protocol over both, so that the harness can tie the
@@ -41,6 +42,9 @@ def handle? : List String → Option String
     match gitParseValue v with
     | none => some "err"
     | some o => some s!"ok {hexOfBytes o}"
+  | ["plain", x] => do
+    let v ← bytesOfHex x
+    some (if plainText v then "true" else "false")
   | ["gitbool", x] => do
     let v ← bytesOfHex x
     some (showOptBool (gitBool v))
